@@ -564,6 +564,136 @@ func (w *bWorld) cacheEpisode(hookable bool, probe bool) {
 	o.emit("(const justified)", j)
 }
 
+// timedEpisode: the expiry of an entry in REAL time.  ttl = 300 ms; two bundles hold the same accepted
+// token; cached verifications at about 0 / 200 / 400 (/ 600) ms: miss (entry expires at 300), hit, and
+// at 400 the entry must be gone although it was hit at 200 — a hit does not extend an entry's life —
+// so the inner verifier is called again (and at 600 the entry made at 400 is hit).  In some episodes
+// the issuer retires the key between the 2nd and 3rd call: the 3rd call, a miss, must fail like direct
+// verification does.  The model is given the MEASURED times (ms since the start of the episode, read
+// right before each call).  An episode in which any call comes within 60 ms of an expiry boundary, or
+// in which a call itself takes more than 30 ms, is dropped and counted: no emitted line depends on a
+// race with the clock.  Returns false when dropped.
+func (w *bWorld) timedEpisode(four, rekey bool) bool {
+	r, o := w.r, w.o
+	ctx := context.Background()
+	const ttlMs = 300
+	kid := w.kids[0]
+	pm, err := macaroon.New(kid, w.permLoc, w.keys[string(kid)])
+	if err != nil {
+		panic(err)
+	}
+	pm.Add(&flyio.Organization{ID: 1, Mask: resset.ActionAll})
+	pe := b64tok("fm2", mustEnc(pm))
+	hdrs := []string{pe, pe}
+	targets := []int64{0, 200, 400}
+	if four {
+		targets = append(targets, 600)
+	}
+	kmOf := func() map[string]macaroon.SigningKey {
+		km := map[string]macaroon.SigningKey{}
+		for k, v := range w.keys {
+			km[k] = v
+		}
+		return km
+	}
+	sxKm := func(km map[string]macaroon.SigningKey) string {
+		ks := make([]string, 0, len(km))
+		for k := range km {
+			ks = append(ks, k)
+		}
+		sort.Strings(ks)
+		p := []string{"keys"}
+		for _, k := range ks {
+			p = append(p, fmt.Sprintf("(%s %s)", hs(k), hx(km[k])))
+		}
+		return "(" + strings.Join(p, " ") + ")"
+	}
+	d := r.Dyn()
+	d.WF, d.NowSec, d.NowNsec, d.Org, d.Action = "", baseNow, 0, p64(1), resset.ActionRead
+	acc, accSx := d.As("org"), d.Sx("org")
+
+	type world struct {
+		bs []*bundle.Bundle
+		km map[string]macaroon.SigningKey
+	}
+	mk := func() *world {
+		wd := &world{km: kmOf()}
+		for _, h := range hdrs {
+			b, _ := bundle.ParseBundle(w.permLoc, h)
+			wd.bs = append(wd.bs, b)
+		}
+		return wd
+	}
+	wc, wd := mk(), mk()
+	inner := &logVerifier{kr: bundle.WithKeys(wc.km, w.trusted), ok: map[string]bool{}}
+	vc := bundle.NewVerificationCache(inner, ttlMs*time.Millisecond, 100)
+	direct := bundle.WithKeys(wd.km, w.trusted)
+
+	var opsSx, outC, outD []string
+	var times []int64
+	start := time.Now()
+	ms := func() int64 { return time.Since(start).Milliseconds() }
+	stalled := false
+	for k, target := range targets {
+		if rekey && k == 2 { // the key is retired between the 2nd and the 3rd call
+			delete(wc.km, string(kid))
+			delete(wd.km, string(kid))
+			now := ms()
+			opsSx = append(opsSx, fmt.Sprintf("(%d (rekey %s))", now, sxKm(wc.km)))
+			outC = append(outC, "-~"+statesStr(wc.bs))
+			outD = append(outD, "-~"+statesStr(wd.bs))
+		}
+		if dt := target - ms(); dt > 0 {
+			time.Sleep(time.Duration(dt) * time.Millisecond)
+		}
+		i := k % 2
+		now := ms()
+		inner.calls, inner.ok = nil, map[string]bool{}
+		cs, err := wc.bs[i].Verify(ctx, vc)
+		if ms()-now > 30 {
+			stalled = true
+		}
+		times = append(times, now)
+		opsSx = append(opsSx, fmt.Sprintf("(%d (verify %d cached))", now, i))
+		outC = append(outC, setsStr(cs, err)+"~"+statesStr(wc.bs)+fmt.Sprintf("~calls=%d", len(inner.calls)))
+		cs, err = wd.bs[i].Verify(ctx, direct)
+		outD = append(outD, setsStr(cs, err)+"~"+statesStr(wd.bs))
+		opsSx = append(opsSx, fmt.Sprintf("(%d (validate %d %s))", now, i, accSx))
+		outC = append(outC, flagStr(wc.bs[i].Validate(acc))+"~"+statesStr(wc.bs))
+		outD = append(outD, flagStr(wd.bs[i].Validate(acc))+"~"+statesStr(wd.bs))
+	}
+	// never emit a line whose expected value depends on a race with the clock
+	for j, tj := range times {
+		for _, tk := range times[j+1:] {
+			if d := tk - (tj + ttlMs); d > -60 && d < 60 {
+				stalled = true
+			}
+		}
+	}
+	if stalled {
+		o.count("timed.dropped")
+		return false
+	}
+	o.count(fmt.Sprintf("timed.calls%d.rekey%v", len(targets), rekey))
+	hxs := make([]string, len(hdrs))
+	for i, h := range hdrs {
+		hxs[i] = hs(h)
+	}
+	op := fmt.Sprintf("(cache.run (sem %s) (order %s) (scope %s) %s %s %s (ttl %d) (hdrs %s) %s)", cacheSem, cacheOrder, bundleScope, w.sxKeys(),
+		sxTrust(w.trusted), hs(w.permLoc), ttlMs, strings.Join(hxs, " "), strings.Join(opsSx, " "))
+	c, dd := strings.Join(outC, " | "), strings.Join(outD, " | ")
+	verdict := "transparent"
+	if stripCalls(c) != dd {
+		verdict = "not-transparent:timed"
+		o.count("go.NOT-transparent.timed")
+	} else {
+		o.count("go.transparent")
+	}
+	o.emit(op, c+" # "+dd)
+	o.emit("(const transparent)", verdict)
+	return true
+}
+
 func stripCalls(s string) string {
 	parts := strings.Split(s, " | ")
 	for i, p := range parts {
@@ -594,6 +724,18 @@ func famCache(r *Rng, o *Out, tier string) {
 		}
 		for k := 0; k < 3; k++ {
 			w.cacheEpisode(hookable, e == 0 && k == 0)
+		}
+	}
+	// a few episodes in real time (about half a second each)
+	crand.Reader = old
+	timed := 3
+	if tier == "thorough" {
+		timed = 10
+	}
+	for e, tries := 0, 0; e < timed && tries < 2*timed; tries++ {
+		w := newBWorld(r, o)
+		if w.timedEpisode(e%3 != 0, e%2 == 1) {
+			e++
 		}
 	}
 
